@@ -20,6 +20,8 @@ import NeumannModel.RaftWal.Model
        | snap li lt <t.c,…|->   → recs=<rec,…|-> reply=<…> state=<nodestate>
     shrink <rec> …              apply the in-flight records' effect on the obligations    → ok
     ghost                       → acted=.. votes=.. acked=..
+    save | load <k> | drop_slots  snapshots of (node, ghost), numbered from 0
+    frame <hexpayload>          → the record bytes `write_entry_bytes` produces
     sat <hexfile>               obligations evaluated on recover(file)                    → true|false|err checksum
 -/
 open Neumann Neumann.Proto Neumann.RaftWal
@@ -28,6 +30,7 @@ structure DState where
   table : List (List Nat × WalEntry) := []
   node : Node := { id := 0 }
   ghost : Ghost := {}
+  slots : List (Node × Ghost) := []
 
 def junkTag : List Nat := [999999, 0, 0, 0]
 
@@ -186,6 +189,15 @@ def walStep (st : DState) (line : String) : DState × String :=
       match rs.mapM parseRec with
       | some es => ({ st with ghost := microAllG st.ghost (es.map Micro.wal) }, "ok") | none => bad
   | ["ghost"] => (st, showGhost st.ghost)
+  | ["save"] => ({ st with slots := st.slots ++ [(st.node, st.ghost)] }, toString st.slots.length)
+  | ["load", k] => match k.toNat? with
+      | some k => (match st.slots[k]? with
+          | some (n, g) => ({ st with node := n, ghost := g }, "ok")
+          | none => bad)
+      | none => bad
+  | ["drop_slots"] => ({ st with slots := [] }, "ok")
+  | ["frame", h] => match unhex h with
+      | some p => (st, hex (FramedLog.encodeRec crc p)) | none => bad
   | ["sat", h] => match unhex h with
       | some b =>
         (match recoverBytes crc deser (FramedLog.openRepair b) with
